@@ -475,7 +475,7 @@ func (w *vingWorld) handlerStep(key, pc string) string {
 		}
 		return "done"
 	case "lookup":
-		regs := w.rm.registeredDecoys.getRegistrations(ip)
+		regs := vMapAs[*DecoyRegistration](w.rm.registeredDecoys.getRegistrations(ip))
 		if d, ok := regs[w.keyIdent[key]]; ok {
 			w.hSaw = d
 			return "mark"
